@@ -154,6 +154,25 @@ impl<'tcx> Cx<'tcx> {
             }
             return ("null".into(), named);
         }
+        // `&&str` (promoted references to string constants, e.g. the arguments of format_args!)
+        if let ty::Ref(_, inner, _) = ty.kind() {
+            if let ty::Ref(_, inner2, _) = inner.kind() {
+                if inner2.is_str() {
+                    if let ConstValue::Scalar(rustc_middle::mir::interpret::Scalar::Ptr(ptr, _)) = val {
+                        let (prov, off) = ptr.prov_and_relative_offset();
+                        let ind = ConstValue::Indirect { alloc_id: prov.alloc_id(), offset: off };
+                        if let rustc_middle::mir::interpret::GlobalAlloc::Memory(_) =
+                            tcx.global_alloc(prov.alloc_id())
+                        {
+                            if let Some(b) = ind.try_get_slice_bytes_for_diagnostics(tcx) {
+                                return (js(&String::from_utf8_lossy(b)), named);
+                            }
+                        }
+                    }
+                    return ("null".into(), named);
+                }
+            }
+        }
         // `&[u8; N]` (byte string literals and the compressed templates of format_args!)
         if let ty::Ref(_, inner, _) = ty.kind() {
             if let ty::Array(et, n) = inner.kind() {
